@@ -214,6 +214,50 @@ def extract_jump_step():
     return head + '\n'.join(lines) + '\n' + tail
 
 
+# ---- C12: the guard chain of the pair scan in Collective._compute ----
+
+def extract_pair_guard():
+    tree = ast.parse((REPO_SRC / 'collective.py').read_text())
+    fn = next(n for n in ast.walk(tree) if isinstance(n, ast.FunctionDef) and n.name == '_compute')
+    inner = None
+    for n in ast.walk(fn):
+        if isinstance(n, ast.For) and any(isinstance(m, ast.For) for m in n.body):
+            inner = next(m for m in n.body if isinstance(m, ast.For))
+            break
+    if inner is None:
+        raise Untranslatable('nested pair loop not found in Collective._compute')
+    names = {'event_i': 'ei', 'event_j': 'ej'}
+
+    def ex(node):
+        if isinstance(node, ast.Subscript) and isinstance(node.value, ast.Name) and node.value.id in names and isinstance(node.slice, ast.Constant):
+            return f'{names[node.value.id]}.{FIELD[node.slice.value]}'
+        if isinstance(node, ast.Name) and node.id == 'max_steps':
+            return 'ms'
+        if isinstance(node, ast.BinOp) and isinstance(node.op, ast.Sub):
+            return f'({ex(node.left)} - {ex(node.right)})'
+        if isinstance(node, ast.Compare) and len(node.ops) == 1 and type(node.ops[0]) in CMP:
+            return f'{ex(node.left)} {CMP[type(node.ops[0])]} {ex(node.comparators[0])}'
+        raise Untranslatable(ast.dump(node)[:80])
+
+    guards = []
+    for st in inner.body:
+        if isinstance(st, ast.If) and len(st.body) == 1 and isinstance(st.body[0], (ast.Continue, ast.Break)) and not st.orelse:
+            guards.append((ex(st.test), 'cont' if isinstance(st.body[0], ast.Continue) else 'brk'))
+        else:
+            break
+    if not guards:
+        raise Untranslatable('no guard statements at the top of the pair loop')
+    body = ''.join(f'  if {c} then .{a} else\n' for c, a in guards) + '  .test\n'
+    return ('/-! GENERATED by harness/translate.py from src/gemdat/collective.py (Collective._compute, the guard statements at the\n'
+            'top of the inner pair loop, in order) — do not edit -/\n'
+            'namespace G.Gen\n\n'
+            'structure PRow where\n  atom_index : Int\n  start_site : Int\n  destination_site : Int\n  start_time : Int\n  stop_time : Int\n'
+            'deriving Repr, DecidableEq\n\n'
+            '/-- what the loop does with the pair before any distance is computed -/\n'
+            'inductive Act where\n  | cont | brk | test\nderiving Repr, DecidableEq\n\n'
+            'def pairGuard (ms : Int) (ei ej : PRow) : Act :=\n' + body + '\nend G.Gen\n')
+
+
 def generate() -> tuple[bool, str]:
     log = []
     try:
@@ -234,6 +278,7 @@ def generate() -> tuple[bool, str]:
         lines.append('end G.Gen')
         _write(GGEN / 'CacheKeys.lean', '\n'.join(lines) + '\n')
         _write(GGEN / 'JumpStep.lean', extract_jump_step())
+        _write(GGEN / 'PairGuard.lean', extract_pair_guard())
         log.append(f'moves: {len(face)} face + {len(diag)} diagonal; loaders: ' + '; '.join(f'{k}: keyed={v[1]} used={v[2]}' for k, v in sorted(info.items())))
         return True, '\n'.join(log)
     except Exception as e:  # noqa: BLE001
